@@ -8,6 +8,12 @@ CLAIMED = {
  "C08": ("E2-replayers", "model-based stateful property-based testing (rapid) against a last-N FIFO reference model, invariant probe after every step",
          "Exploration: tens of thousands (quick) to hundreds of thousands (thorough) of generated Put/Replay histories over all capacities 2..9 and both ID modes are compared operation by operation with a reference FIFO; ring shapes incl. write index == 0 and start == write index are reached in most cases. It cannot prove absence, but the state space of the ring (N<=9) is small enough that every (head, tail, count) shape is visited many times per run.",
          "Trusts the reference model in harness/replayers/engine_test.go (written from the property statement). Manual IDs are unique within a history; an evicted ID with automatic IDs is only checked for validity (DESIGN 6.6).", "5/C08"),
+ "C09": ("E2-replayers", "model-based stateful property-based testing (rapid) against a TTL visibility model with an injected clock, invariant probe after every step",
+         "Exploration: generated Put/Replay/GC/advance histories (non-decreasing injected clock) over TTLs, GC intervals and both ID modes are compared with a visibility model (visible iff put+ttl > now); two one-directional nets (nothing expired is sent; every visible later entry is sent) hold however often collection and resizing ran. The shadow of the growth policy shows that grow, wrap and shrink all happen in a large share of cases.",
+         "Trusts the TTL model; the clock never goes backwards (the property's proviso); presenting the ID of an expired entry is only checked for validity.", "5/C09"),
+ "C18": ("E2-replayers", "stateful property-based testing (rapid) with weak pointers + forced garbage collection as the reachability oracle",
+         "Exploration: on generated histories every message is tracked only through weak pointers; after forced GCs every evicted / expired-and-collected message must be unreachable and the newest reachable. This observes what output comparison cannot (retention), on tens of thousands of grow/wrap/shrink histories.",
+         "Relies on Go's precise GC and weak.Pointer semantics; put-triggered collection is required only where both readings of 'after a GCInterval period passed' agree (DESIGN 6.5).", "5/C18"),
 }
 
 PENDING_REASON = "check not built yet (work in progress; DESIGN.md section 5 describes the planned generated-input check)"
